@@ -402,6 +402,51 @@ def judge_diag(spec, xpn, dt, g, counters, viol):
         i = int(np.argmax(bad))
         viol.append({"mech": "C04/inverse-jacobian-not-negative-of-forward", "detail": where(f"row {i}: forward logJ={lj[i]!r} inverse logJ={lji[i]!r}")})
 
+    # ---- (v) the inverse map far out in the latent space (bounded -> unbounded maps without whitening): where the floating
+    #      point resolution still lets x move with z, the implemented inverse must move, and its reported log-Jacobian must be
+    #      the log-derivative of what it returns (central differences of the implemented inverse, float64 instance)
+    b2u_on = kind in ("logit", "probit") or (kind in ("composite", "flowtransform") and spec.get("b2u") and not spec.get("affine"))
+    bdims = [j for j, r in enumerate(roles) if r == "bounded"]
+    if b2u_on and bdims and all(r in ("bounded", "periodic", "free", "inside") for r in roles):
+        probit = (kind == "probit") or spec.get("bt") == "probit"
+        for _rep in range(2):
+            z = np.array(y[: min(nb, 6)], dtype=float, copy=True)
+            if not np.isfinite(z).all():
+                break
+            mag = g.uniform(3.0, 6.5, (len(z), len(bdims))) if probit else g.uniform(8.0, 24.0, (len(z), len(bdims)))
+            z[:, bdims] = np.where(g.random((len(z), len(bdims))) < 0.5, -1.0, 1.0) * mag
+            hz = 1e-3 * np.abs(z[:, bdims])
+            x0, lj0 = t64.inverse(arr(z, "float64"))
+            x0 = np.asarray(to_np(x0), dtype=float)
+            lj0 = np.asarray(to_np(lj0), dtype=float).reshape(-1)
+            zp, zm = z.copy(), z.copy()
+            zp[:, bdims] += hz
+            zm[:, bdims] -= hz
+            xp_ = np.asarray(to_np(t64.inverse(arr(zp, "float64"))[0]), dtype=float)
+            xm_ = np.asarray(to_np(t64.inverse(arr(zm, "float64"))[0]), dtype=float)
+            w_ = (hi - lo)[bdims]
+            dx = xp_[:, bdims] - xm_[:, bdims]
+            u0 = (x0[:, bdims] - lo[bdims]) / w_
+            room = np.minimum(u0, 1 - u0)  # distance from the bound in units of the width
+            resol = 2.3e-16 * (np.maximum(np.abs(lo[bdims]), np.abs(hi[bdims])) / w_ + 1)
+            counters["inverse_tail_points_judged"] += int(dx.size)
+            flat = (dx == 0) & (room > 1e4 * resol) & np.isfinite(lj0)[:, None]
+            if flat.any():
+                i, jj = np.argwhere(flat)[0]
+                viol.append({"mech": "C04/inverse-map-flat-where-its-jacobian-is-finite", "detail": where(f"dim {bdims[jj]}: z={z[i, bdims[jj]]!r}: inverse returns x={x0[i, bdims[jj]]!r} for z-h and z+h alike (distance from the bound {room[i, jj]:.3g} widths), reported inverse logJ {lj0[i]!r}")})
+                break
+            # derivative check where the difference carries >= 5 significant digits (only the bounded dims were perturbed)
+            good = np.all(np.abs(dx) > 1e5 * 2.3e-16 * np.maximum(np.abs(x0[:, bdims]), w_), axis=1) & np.isfinite(lj0)
+            if len(bdims) == d and good.any():
+                ref = np.sum(np.log(np.abs(dx[good] / (2 * hz[good]))), axis=1)
+                tolv = 5e-3 + 1e-5 * np.abs(ref)
+                badv = np.abs(lj0[good] - ref) > tolv
+                counters["inverse_tail_derivatives_judged"] += int(good.sum())
+                if badv.any():
+                    i = int(np.argmax(badv))
+                    viol.append({"mech": "C04/inverse-jacobian-differs-from-derivative-of-inverse", "detail": where(f"z={z[good][i].tolist()}: reported {lj0[good][i]!r}, central differences of the implemented inverse {ref[i]!r}")})
+                    break
+
     # ---- (ii) forward log-J vs central differences of the implemented map (float64)
     h = np.empty_like(xpts)
     ok = interior.copy()
